@@ -286,7 +286,7 @@ def run(ctx):
     en = ctx.fn('Encoder::encode')
     for cs in en.calls('encode::process_encoding_step'):
         prims.requires(ctx, en, cs.bb, [r'^\(\(\(Vec::len\(dest\) AddWithOverflow 4\)\)\.0 <= Vec::capacity\(dest\)\)$', r'^!VecDeque::is_empty\(self\.steps\)$'], 'encode-loop', 'processing a step', loc=cs.loc())
-        ctx.ob(show(cs.arg(1)) == 'Option::unwrap(VecDeque::pop_front(self.steps))', 'steps are consumed from the front of the queue', 'encode-loop|front', loc=cs.loc())
+        ctx.ob(show(cs.arg(1)) in ('Option::unwrap(VecDeque::pop_front(self.steps))', '(VecDeque::pop_front(self.steps))@Some.0'), 'steps are consumed from the front of the queue', 'encode-loop|front', loc=cs.loc())
 
     # ---------------------------------------------------------------- R-C02-7 dispatch
     ctx.rule('R-C02-7', 'T4 dispatch table', 'both encoder dispatchers route every MqttPacket variant to the writer of that packet; Encoder::reset picks the dispatcher by protocol version')
@@ -324,10 +324,13 @@ def run(ctx):
         ctx.ob(show(rc[0].arg(1)) == pk, 'the alias resolution is computed for the packet that is encoded (`%s` vs `%s`)' % (show(rc[0].arg(1)), pk), 'prepared|alias-input', loc=rc[0].loc())
         ctx.ob(show(va[0].arg(0)) == pk, 'the validated packet is the packet that is encoded (`%s` vs `%s`)' % (show(va[0].arg(0)), pk), 'prepared|validated', loc=va[0].loc())
         inits = [(b, show(e)) for b, e in var_inits(sq, pk)] if re.match(r'^\w+$', pk) else []
-        OPX = r'\(?Option::unwrap\(HashMap::get\(self\.operations, (current_operation_id|Option::unwrap\(self\.current_operation\))\)\)\)?'
-        plain = [x for b, x in inits if re.search(OPX + r'\.packet\)?$', x)]
-        rel = [(b, x) for b, x in inits if re.search(OPX + r'\.qos2_pubrel@Some\.0\)?$', x)]
-        ctx.ob(len(inits) == 2 and len(plain) == 1 and len(rel) == 1 and prims.guarded_any(sq, rel[0][0], [r'\.qos2_pubrel is Some$']),
+        OPX = r'^\(?(?:Option::unwrap\(HashMap::get\(self\.operations, (?P<k>.+)\)\)|\(HashMap::get\(self\.operations, (?P<k2>.+)\)\)@Some\.0)\)?'
+        plain = [re.match(OPX + r'\.packet\)?$', x) for b, x in inits]
+        plain = [m_ for m_ in plain if m_]
+        rel = [(b, re.match(OPX + r'\.qos2_pubrel@Some\.0\)?$', x)) for b, x in inits]
+        rel = [(b, m_) for b, m_ in rel if m_]
+        samekey = len(plain) == 1 and len(rel) == 1 and (plain[0].group('k') or plain[0].group('k2')) == (rel[0][1].group('k') or rel[0][1].group('k2'))
+        ctx.ob(len(inits) == 2 and samekey and prims.guarded_any(sq, rel[0][0], [r'\.qos2_pubrel is Some$']),
                'that packet is the operation\'s own packet, replaced by its PUBREL exactly when the PUBREL slot is set (%s)' % [x[:70] for b, x in inits], 'prepared|packet-choice', loc=sq.loc())
 
 
